@@ -7,6 +7,7 @@ rules would otherwise have to recognise one by one (and that a behaviour-preserv
   N2  tmp = E ; return tmp            ->  return E                     (tmp assigned once, used only by that return)
   N3  K <op> x  with a constant K     ->  x <mirrored op> K            (==, !=, <, <=, >, >=; single comparison)
   N5  if not C: raise X ; rest        ->  if C: rest ; raise X         (rest returns/raises on every path)
+  N17 `not A or not B`, `a not in S and not isinstance(a, T)` in such a guard are read as `not (A and B)`, `not (a in S or ...)`
   N6  pass next to other statements   ->  dropped
   N7  index loops                     ->  enumerate / .items() loops   (for i in range(len(S)): x = S[i] ... ; for k in D: v = D[k] ...)
 
@@ -89,6 +90,29 @@ def always_exits(stmts):
     return False
 
 
+_NEG_OPS = {ast.NotIn: ast.In, ast.IsNot: ast.Is, ast.NotEq: ast.Eq}
+
+
+def positive_form(test):
+    """N17  the condition C with `test == not C`, when test is written negatively: `not C`, or a De Morgan form whose operands
+    are all negative (`not A or not B`, `a not in S and not isinstance(a, T)`) with at least one explicit `not`; else None"""
+    if isinstance(test, ast.UnaryOp) and isinstance(test.op, ast.Not):
+        return test.operand
+    if isinstance(test, ast.BoolOp) and any(isinstance(v, ast.UnaryOp) and isinstance(v.op, ast.Not) for v in test.values):
+        vals = []
+        for v in test.values:
+            if isinstance(v, ast.UnaryOp) and isinstance(v.op, ast.Not):
+                vals.append(v.operand)
+            elif isinstance(v, ast.Compare) and len(v.ops) == 1 and type(v.ops[0]) in _NEG_OPS:
+                c = ast.Compare(left=v.left, ops=[_NEG_OPS[type(v.ops[0])]()], comparators=v.comparators)
+                vals.append(ast.copy_location(c, v))
+            else:
+                return None
+        new = ast.BoolOp(op=ast.Or() if isinstance(test.op, ast.And) else ast.And(), values=vals)
+        return ast.copy_location(new, test)
+    return None
+
+
 def unfold_guards(func):
     """N5  `if not C: raise X` ; rest   ->   `if C: rest` ; `raise X`      (rest exits on every path)
     The repository writes its type/format guards in the second form; the first one is the usual early-exit spelling."""
@@ -102,16 +126,17 @@ def unfold_guards(func):
                     continue
                 for i, st in enumerate(b[:-1]):
                     if isinstance(st, ast.If) and not st.orelse and len(st.body) == 1 and isinstance(st.body[0], ast.Raise) \
-                            and isinstance(st.test, ast.UnaryOp) and isinstance(st.test.op, ast.Not):
+                            and positive_form(st.test) is not None:
+                        positive = positive_form(st.test)
                         rest = b[i + 1:]
                         if any(isinstance(x, (ast.FunctionDef, ast.ClassDef)) for x in rest):
                             continue
                         if always_exits(rest):
-                            new_if = ast.If(test=st.test.operand, body=rest, orelse=[])
+                            new_if = ast.If(test=positive, body=rest, orelse=[])
                             tail = [st.body[0]]
                         else:
                             # (e.g. inside a loop body) the rest falls through: the raise becomes the else branch
-                            new_if = ast.If(test=st.test.operand, body=rest, orelse=[st.body[0]])
+                            new_if = ast.If(test=positive, body=rest, orelse=[st.body[0]])
                             tail = []
                         ast.copy_location(new_if, st)
                         new_if.end_lineno = getattr(rest[-1], "end_lineno", None)
